@@ -18,10 +18,12 @@ open CaddyModel.C19
 #print axioms strict_case_port_insensitive
 #print axioms strict_binds_routing_host_partial
 #print axioms strict_binds_catch_all_partial
-#print axioms client_auth_not_bypassed_partial
 #print axioms strict_pass_not_bracketTrimmed
 #print axioms strict_binds_routing_host
 #print axioms strict_binds_catch_all
-#print axioms client_auth_not_bypassed
+#print axioms strict_binds_policy_name_partial
+#print axioms client_auth_not_bypassed_partial
 #print axioms live_index_breaks_first_match
 #print axioms strict_binds_routing_host_full_fails
+#print axioms strict_unicode_fold_full_fails
+#print axioms client_auth_not_bypassed_full_fails
